@@ -92,6 +92,13 @@ def seed_variants(prop: str):
         if not d.startswith(prop + "-"):
             continue
         pf = os.path.join(base, d, "patch.diff")
+        mf = os.path.join(base, d, "meta.json")
+        if os.path.exists(mf):
+            import json
+
+            with open(mf, encoding="utf-8") as fh:
+                if json.load(fh).get("limit"):
+                    continue  # a documented limit of the technique (DESIGN.md section 6): kept on file, not expected to be reported
         if os.path.exists(pf):
             with open(pf, encoding="utf-8") as fh:
                 out.append((f"seeded change {d}", patch_edits(fh.read()), prop))
